@@ -244,7 +244,8 @@ def parse_hist_impl(o, years):
         runs.append({"answers": [impl_answer(a) for a in r["answers"]],
                      "requests": [(y, s) for y, s in r["requests"]],
                      "marks": r["req_marks"],
-                     "cache_after": r.get("cache_after")})
+                     "cache_after": r.get("cache_after"),
+                     "cache_files": r.get("cache_files")})
     cache = []
     for y in years:
         c = o["cache"][str(y)]
